@@ -653,6 +653,10 @@ def signal_case(rng):
     rest = []
     while len(rest) < 12 * n:
         rest += [rng.randrange(n)] * rng.randint(1, 5)
+    if rng.random() < 0.35:
+        # the body is over and giveLocks has released m of the locks when the signal comes (D12i)
+        m = rng.randint(0, len(procs[0].get("path", [0])) - 1)
+        pre = pre + [0] + [0] * (4 * m)
     rest = pre + [-1] + rest
     if rng.random() < 0.3:
         rest.insert(rng.randint(0, len(rest)), -rng.randint(1, n))
@@ -850,8 +854,12 @@ def evaluate(ctx, cases):
         if any(t[1] == "signal" for t in r["trace"]):
             ctx.hist("with_signal=" + c.get("signal", "TERM"))
             if any(t[1] == "signal" and t[2] == "delivered" for t in r["trace"]):
-                ctx.hist("signal_delivered_in_body" if len(r.get("acq_signals") or []) <
-                         sum(1 for t in r["trace"] if t[1] == "signal" and t[2] == "delivered") else "signal_delivered_only_during_takeLocks")
+                ctx.hist("signal_delivered_in_body" if len(r.get("acq_signals") or []) + len(r.get("rel_signals") or []) <
+                         sum(1 for t in r["trace"] if t[1] == "signal" and t[2] == "delivered") else "signal_delivered_outside_bodies_only")
+            for i in r.get("rel_signals") or []:
+                ctx.hist("signal_delivered_inside_giveLocks")
+                if any(t[0] == i and t[1].startswith("rmdir") for t in r["trace"][:[k for k, t in enumerate(r["trace"]) if t[0] == i and t[1] == "signal"][0]]):
+                    ctx.hist("signal_inside_giveLocks_between_two_locks")
             for i in r.get("acq_signals") or []:
                 ctx.hist("signal_delivered_during_takeLocks")
                 held_before = any(t[0] == i and t[1].startswith("create") and t[2] == "ok" for t in r["trace"])
@@ -1038,6 +1046,8 @@ def run(ctx):
         raise common.InfraError("no locker was killed outright in this run")
     if not ctx.histogram.get("signal_during_takeLocks_with_earlier_stacks_locked"):
         raise common.InfraError("no command of this run was interrupted during takeLocks with locks on earlier stacks already taken")
+    if not ctx.histogram.get("signal_delivered_inside_giveLocks") or not ctx.histogram.get("signal_inside_giveLocks_between_two_locks"):
+        raise common.InfraError("no command of this run was interrupted inside giveLocks (at its start and between two locks)")
     if not ctx.histogram.get("signal_delivered_in_body"):
         raise common.InfraError("no signal was delivered to a command body in this run")
     for ev in ("request_withdrawn", "retry_after_withdrawal", "create_found_directory_removed", "retry_after_directory_removed",
